@@ -392,6 +392,9 @@ func (c *copier) copy(ctx context.Context, src, srcComponents, target string, ov
 			return nil
 		}
 
+		if targetFi != nil {
+			c.forgetLinkSources(target)
+		}
 		if err := ensureEmptyFileTarget(target); err != nil {
 			return err
 		}
@@ -510,7 +513,20 @@ func (c *copier) removeTargetIfNeeded(target string, srcFi, targetFi os.FileInfo
 		// directories are merged, not replaced
 		return nil
 	}
+	c.forgetLinkSources(target)
 	return os.RemoveAll(target)
+}
+
+// forgetLinkSources drops the hard link sources recorded at or below a destination path
+// that is about to be replaced: a later member of such a link group must not be linked
+// to whatever takes that path's place (several sources of one call can land on the same
+// destination path).
+func (c *copier) forgetLinkSources(target string) {
+	for inode, p := range c.inodes {
+		if p == target || strings.HasPrefix(p, target+string(filepath.Separator)) {
+			delete(c.inodes, inode)
+		}
+	}
 }
 
 // Delayed creation of parent directories when a file or dir matches an include
